@@ -89,9 +89,6 @@ theorem matchSM_noMatch_inv {root : State} {mg rd : Bool} {q : Req} {dom path : 
           cases h
           exact ⟨rfl, rfl, rfl, .inr ⟨r0, vs, rfl, by simpa using hm⟩⟩
 
-theorem getDefaultRedirect_cases (m : RMap) (a : Adapter) (r : Rule) (meth : Str) (vals qa) (l : List Rule) :
-    True := trivial
-
 /-- `MapAdapter.match` returns normally only when the matcher did -/
 theorem matchAdapter_matched_inv {m : RMap} {a : Adapter} {p : Str} {meth : Option Str} {qa : QueryArgs} {ws : Option Bool}
     {r : Rule} {vals} (h : matchAdapter m a p meth qa ws = .matched r vals) :
